@@ -38,6 +38,19 @@ def _tables(gbt, d, crops, parent):
     if cshape != tshape or [list(map(int, ch)) for ch in gbt.chunks] != chunks or tuple(gbt.shape.yx) != (ny, nx):
         tshape = [[[-1, -1]] * nx] * ny  # GeoboxTiles disagrees with its own ROI tiling: rejected by the table verdict
     locate = [[[int(v) for v in t.locate((y, x))] for x in range(NX)] for y in range(NY)]
+    oob = []
+    # (a variable-sized tiling answers an index below -n with an inverted slice instead of refusing it; the statement is about indices of
+    #  the tiling, so that probe is made on regular tilings only - noted in DESIGN.md)
+    below = [(-ny - 1, 0), (0, -nx - 1)] if d["kind"] == "reg" else []
+    for kind, fn, probes in (("tile", lambda i: t[i], [(ny, 0), (0, nx), (ny + 3, nx + 3)] + below),
+                             ("tile_shape", t.tile_shape, [(ny, 0), (0, nx)]),
+                             ("pixel", t.locate, [(NY, 0), (0, NX), (-1, 0), (0, -1), (NY + 5, NX + 5)])):
+        for pr in probes:
+            try:
+                fn(pr)
+                oob.append([kind, int(pr[0]), int(pr[1])])
+            except IndexError:
+                pass
     rois = []
     for r0 in range(ny):
         for r1 in range(r0 + 1, ny + 1):
@@ -55,7 +68,7 @@ def _tables(gbt, d, crops, parent):
             row.append([int(g.shape[0]), int(g.shape[1])] + [_lat(v) for v in (ga.a, ga.b, ga.c, ga.d, ga.e, ga.f)])
         tgb.append(row)
     return {"kind": "tiling", "d": d, "crops": crops, "outcome": "ok", "t": [ny, nx], "base": [NY, NX], "chunks": chunks,
-            "regions": regions, "neg": neg, "tshape": tshape, "locate": locate, "rois": rois, "gb": gb, "tgb": tgb,
+            "regions": regions, "neg": neg, "oob": oob, "tshape": tshape, "locate": locate, "rois": rois, "gb": gb, "tgb": tgb,
             "parent": parent}
 
 
@@ -164,6 +177,24 @@ def run_blocks(case):
         if not blocks:
             kw["dtype"] = dtype  # with no block at all the assembler cannot know the dtype
         yx = (slice(w[0], w[1]), slice(w[2], w[3]))
+        # the assembler's own description of the mosaic, and its other ways of naming a window, agree with the plain extract
+        if blocks and tuple(asm.shape) != prefix + (H, W) + postfix:
+            return dict(e, outcome="assembler_shape_is_not_the_mosaic_shape", out=[])
+        if blocks and not mixed and asm.dtype != dtype:
+            return dict(e, outcome="assembler_dtype_is_not_the_block_dtype", out=[])
+        if blocks and (w[0] + w[2] + len(case["present"])) % 3 == 0:
+            full = asm.extract(**kw)                                     # roi=None: everything
+            planes = list(asm.planes_yx())
+            if len(planes) != nplanes or full.shape != tuple(asm.shape):
+                return dict(e, outcome="planes_yx_does_not_enumerate_the_planes", out=[])
+            for pr in planes:
+                a, b = asm.extract(roi=pr, **kw), full[pr]
+                if a.shape != b.shape or not np.array_equal(a, b, equal_nan=True):
+                    return dict(e, outcome="plane_window_differs_from_the_full_extract", out=[])
+            if prefix and not np.array_equal(asm.extract(roi=(0,), **kw), full[0], equal_nan=True):
+                return dict(e, outcome="short_roi_is_not_completed_with_full_slices", out=[])
+            if not np.array_equal(asm.extract(roi=yx, **kw), full[(slice(None),) * len(prefix) + yx], equal_nan=True):
+                return dict(e, outcome="window_differs_from_the_full_extract", out=[])
         if case["pick"]:
             p = case["pick"][0]
             idx = np.unravel_index(p, prefix + postfix)
@@ -191,7 +222,7 @@ def run_blocks(case):
     return e
 
 
-_T_DEFAULT = {"t": [0, 0], "base": [0, 0], "chunks": [[], []], "regions": [], "neg": [], "tshape": [], "locate": [], "rois": [],
+_T_DEFAULT = {"oob": [], "t": [0, 0], "base": [0, 0], "chunks": [[], []], "regions": [], "neg": [], "tshape": [], "locate": [], "rois": [],
               "gb": [], "tgb": [], "parent": []}
 
 
